@@ -15,7 +15,10 @@ TECHNIQUE = ('must-pass-through dataflow on generate_evaluation_code; path condi
              'expression evaluator, nothing from /repo is executed); name/arity/substitution-key agreement between the emitted '
              '__Pyx_div_/__Pyx_mod_ calls, UtilityCode.specialize and the CMath.c sections; construction-site scan for synthesised '
              'DivNode/ModNode; clang AST comparison of the declared copies in Optimize.c with DivInt/ModInt; finite-domain interpretation of '
-             'InPlaceAssignmentNode.generate_execution_code (checker-owned evaluator, every undetermined test forks) for each division operator')
+             'InPlaceAssignmentNode.generate_execution_code (checker-owned evaluator, every undetermined test forks) for each division operator; '
+             'bounded model check of the extracted C helpers (rules/pC03.py: a C interpreter of the checker with integer promotions / conversions / undefined-behaviour '
+             'detection) over ALL operand pairs of a 4-bit model type; truth tables of the emitted run-time guards (typed C evaluation over int/long/long long x '
+             'ILP32/LP64/LLP64 x the boundary partition of the operands); must-follow / bracket typestate on the emission of the raise')
 DECIDES = ('(WARN) every generate_evaluation_code of the DivNode family calls generate_div_warning_code on every path, after the operands were evaluated; '
            '(ZGUARD) the ZeroDivisionError emission in generate_div_warning_code is guarded by nothing but zerodivision_check and "not a Python object", and tests operand2; '
            '(ZDC) zerodivision_check is true whenever cdivision is undecided, the scoped directive is off and the divisor is not a non-zero constant; '
@@ -26,9 +29,17 @@ DECIDES = ('(WARN) every generate_evaluation_code of the DivNode family calls ge
            'on the complete sign domain, enclosing `if (remainder)` guards included; (DSCOPE) a transform that analyses an arithmetic node it built installs the block-level directives first; (SEL) the helper call is emitted only when cdivision is false and the plain C operator only when cdivision or truedivision is set; '
            '(PIN) every DivNode/ModNode synthesised outside the parser with a constant operator pins cdivision; (SIB1) the Optimize.c copies equal DivInt/ModInt; '
            '(INPLACE) the in-place statement node, which emits `lhs op= rhs` in plain C and thereby bypasses DivNode/ModNode, hands a DivNode-family operator (/ // %) on a C integer target to an '
-           'emitting call with cdivision off only on paths that also report a compile error (rules/sC03.py; the generic `lhs op= rhs` emission is a pending finding, see sC03.PENDING).')
-NOT_DECIDED = ('how the adjustment predicate is combined with quotient and remainder (q - adapt, r + adapt*b), the MIN / -1 overflow guard (C36/C04), float division, and the C semantics of '
-               'the chosen operators; whether the path conditions of use_utility_code and of the emitted call coincide exactly; which targets ExpandInplaceOperators leaves un-expanded '
+           'emitting call with cdivision off only on paths that also report a compile error (rules/sC03.py; the generic `lhs op= rhs` emission is a pending finding, see sC03.PENDING); '
+           '(HELPERS) CMath.c::DivInt / ModInt / ModFloat and each declared copy in PyLongBinop return floor(a / b) resp. a - floor(a / b) * b for every operand pair (b != 0) of a 4-bit signed '
+           'model type and both values of b_is_constant, and ModInt answers MIN % -1 without executing the C remainder (width-parametricity premise checked: no literal but 0 and 1); '
+           'where HELPERS has verified an original and its copy, a mere shape difference found by SIB is an info line; '
+           '(GUARD) the emitted zero test is true exactly for b == 0; the emitted OverflowError guard is true only for (MIN, -1) - so 0 // -1, MIN // 1, -2**32 // -1 on ILP32 are delivered - and is not emitted for %; '
+           '(RAISE) every emitted PyErr_SetString of the family is followed by the error jump before its block closes and, where in_nogil can be true, lies between put_ensure_gil / put_release_ensured_gil; '
+           '(SIMPLE) operands whose result() is pasted into those guards are coerced to simple nodes by analyse_operation whenever zerodivision_check is set. '
+           'Emission blocks / text builders extracted into helper methods of the node class are analysed in place (sC03.inline_self_calls, render(resolver)).')
+NOT_DECIDED = ('the transfer of HELPERS from the 4-bit model width to the production widths (rests on the syntactic parametricity premise); ModFloat only on the integer-valued points of the grid '
+               '(fmod modelled as the truncated remainder there); the converse of the OverflowError guard (MIN // -1 IS intercepted) belongs to C04-W1 / C04-MINGUARD and is a known finding for int; '
+               'the complex-number zero test built from unary_op(\'zero\'); float division and the C semantics of the chosen operators; whether the path conditions of use_utility_code and of the emitted call coincide exactly; which targets ExpandInplaceOperators leaves un-expanded '
                '(INPLACE checks the code generator of whatever survives, for every shape of target).')
 ASSUMPTIONS = ['code.globalstate.directives is the scoped directive set during code generation (CompilerDirectivesNode swaps it around its body)']
 EXEMPT = {}
@@ -59,6 +70,8 @@ MUTATIONS = [   # (file, single edit, rule that reported it) -- all run on a scr
     ('Cython/Compiler/Nodes.py', 'guard gets the extra conjunct `lhs.is_memview_index` (buffer targets no longer rejected)', 'C03-INPLACE'),
     ('Cython/Compiler/Nodes.py', 'behaviour-preserving: error() moved after generate_buffer_setitem_code (error() only records); c_op computed by a conditional expression from a renamed local '
                                  'and the guard written with De Morgan over the source operator in (/, //, %); guard as three nested ifs with the directive in a local, f-string in the C++ branch', 'silent'),
+    ('mutants/C03/*', '17 + 6 brainstormed breaking edits (DivInt/ModInt/ModFloat combination and operands, cooperating copies, zero test `<= 0`, dropped error jump, dropped coerce_to_simple, '
+                      'negation macro, divisor == 1, guard emitted for %, sizeof >=, ModInt b == 1 short cut, GIL bracket, ...) and 12 behaviour-preserving rewrites; see meta.json of each', 'C03-HELPERS / C03-GUARD / C03-RAISE / C03-SIMPLE'),
     ('behaviour-preserving (all silent)', '`if not is_pyobject:` nesting turned into an early return; local zero_test renamed; zerodivision_check formula rewritten with De Morgan; '
                                           'ModNode.calculate_result_code branches reordered (`if not self.cdivision` first, %-format instead of f-string); an unrelated method added', 'silent'),
 ]
@@ -420,10 +433,11 @@ def run(ctx):
     gw = own_methods(fam, 'generate_div_warning_code')
     if not gw:
         raise AnalysisError('DivNode.generate_div_warning_code vanished')
+    from ..rules import sC03 as _s3
     for c, fn in gw:
         key = '%s.generate_div_warning_code' % c.qual
         r.inst(key, sample=key)
-        for k, msg in zguard_problems(fn):
+        for k, msg in zguard_problems(_s3.inline_self_calls(ix, c, fn)):       # an emission block extracted into a helper method is analysed in place
             r.violate(key + ':' + k, REL, fn.lineno, '%s: %s' % (key, msg))
     pcf = ast.parse("def generate_div_warning_code(self, code):\n    if not self.type.is_pyobject:\n        if self.zerodivision_check and self.type.signed:\n"
                     "            zero_test = '%s == 0' % self.operand1.result()\n            code.putln('if (unlikely(%s)) {' % zero_test)\n"
@@ -561,13 +575,42 @@ def run(ctx):
 
     # ---------------------------------------------------------------- PIN
     rules.append(rule_pin(ctx, fam_names))
-    # ---------------------------------------------------------------- SIB
-    rules.append(P.rule_sib(ctx, 'C03-SIB'))
+    # ---------------------------------------------------------------- SIB (+ HELPERS: each copy and each original against the definition of // and %)
     from ..rules import dscope, flooradj
+    from ..rules import sC03
+    rh2 = sC03.rule_helpers(ctx)
+    try:
+        rsib = P.rule_sib(ctx, 'C03-SIB')
+    except AnalysisError as e:
+        # SIB (a shape comparison of the declared copies with CMath.c) cannot read one of the blocks.  The obligation it stands for - copy and original
+        # compute the same // resp. % - is decided value-wise by C03-HELPERS for every original and every copy; only if that succeeded for all of them
+        # is the give-up downgraded to an info line.
+        originals = {k for k in rh2.ok_sites if k[0] == 'CMath.c'}
+        copies = {k for k in rh2.ok_sites if k[0] != 'CMath.c'}
+        if rh2.findings or len(originals) < 3 or len(copies) < 4:
+            raise
+        rsib = Rule('C03-SIB', 'SIB1: declared copies of DivInt / ModInt in PyLongBinop equal the original (shape comparison)', floor=0)
+        for k in sorted(copies):
+            rsib.inst('PyLongBinop(%s):%s:%s' % k, sample='covered by C03-HELPERS: PyLongBinop(%s):%s:%s' % k)
+        rsib.info('shape comparison not possible (%s); every original and every declared copy was verified value-wise by C03-HELPERS instead' % str(e)[:160])
+    # SIB compares the *shape* of a declared copy with its original.  When C03-HELPERS has shown that the original AND the copy both compute
+    # Python's // resp. % on the whole model grid, a difference in shape is a behaviour-preserving rewrite of one side: reported as info only.
+    keep = []
+    for f in rsib.findings:
+        m = re.match(r'PyLongBinop\((\w+)\):(\w+):(\w+)$', f.construct)
+        if m and (m.group(1), m.group(2), m.group(3)) in rh2.ok_sites and ('CMath.c', m.group(2)) in rh2.ok_sites:
+            rsib.info('shape difference only (both sides verified by C03-HELPERS): %s' % f.msg[:200])
+        else:
+            keep.append(f)
+    rsib.findings = keep
+    rules.append(rsib)
+    rules.append(rh2)
     rules.append(dscope.rule_dscope(ctx))
     rules.append(flooradj.rule_adj(ctx))
-    from ..rules import sC03
     rules.append(sC03.rule_inplace(ctx))
+    rules.append(sC03.rule_guard(ctx))
+    rules.append(sC03.rule_raise(ctx))
+    rules.append(sC03.rule_simple(ctx))
     return rules
 
 
